@@ -3,14 +3,14 @@
 // (spawned by its constructor through the shimmed std::thread), producers, ForceFlush callers, Shutdown callers.
 // The exporter is a harness class whose Export / ForceFlush / Shutdown are scheduling points.
 //
-//   bsp|blp <maxq>[r|f|g|a] <maxb> <nprod> <adds> <flushers: e.g. i2f> <nshut> <exporter script> ; <action> ; ...
+//   bsp|blp <maxq>[r|f|g|a] <maxb> <nprod> <adds> <flushers: e.g. i2f> <nshut>[:<timeouts, e.g. i1>] <exporter script> ; <action> ; ...
 //     maxq suffix = how the processor is built: none = (exporter, options) constructor, r = (exporter, options, runtime
 //       options) constructor, f / g = the factory's Create with two / three arguments, a = (logs only) the constructor
 //       taking the three numbers.  They must all configure the same processor.
 //     flushers: one char per ForceFlush caller: 'i' = indefinite timeout (max), digit k = timeout of k * schedule_delay,
 //       'h' = half a schedule_delay (the wait is clipped to the caller's timeout), 'u' = one microsecond
-//     nshut: number of Shutdown callers, optionally followed by how they call it: none = Shutdown() (max), 't' = a finite
-//       timeout (3 * schedule_delay), 'z' = zero, 'u' = one microsecond
+//     nshut[:<chars>]: one char per Shutdown caller: 'i' = Shutdown() (max), digit k = k * schedule_delay / 4 (0 = zero),
+//       'u' = one microsecond
 //     records with an odd id are obtained through Processor::MakeRecordable() (and, for spans, announced with OnStart)
 //       instead of being built by the caller: both are pass-throughs that must not change anything
 //     exporter script: chars 's' (Export succeeds) / 'f' (Export reports failure), cycled; 'F' = ForceFlush fails; 'S' = Shutdown fails
@@ -163,20 +163,29 @@ static std::string handle(const std::vector<std::string> &t)
     return !s.empty() && *e == 0;
   };
   unsigned long maxq, maxb, nprod, adds, nshut;
-  char ctor = 0, shut_to = 0;
-  if (!ops[0][5].empty() && (ops[0][5].back() == 't' || ops[0][5].back() == 'z' || ops[0][5].back() == 'u'))
-  {
-    shut_to = ops[0][5].back();
-    ops[0][5].pop_back();
-  }
+  char ctor = 0;
   if (!ops[0][0].empty() && !(ops[0][0].back() >= '0' && ops[0][0].back() <= '9'))
   {
     ctor = ops[0][0].back();
     ops[0][0].pop_back();
   }
+  // <nshut> or <nshut>:<one char per Shutdown caller>: 'i' = Shutdown() (no timeout), digit k = Shutdown(k * schedule_delay / 4),
+  // 'u' = Shutdown(1 us)
+  std::string shspec;
+  {
+    auto colon = ops[0][5].find(':');
+    if (colon != std::string::npos)
+    {
+      shspec = ops[0][5].substr(colon + 1);
+      ops[0][5].resize(colon);
+    }
+  }
   if (!num(ops[0][0], maxq) || !num(ops[0][1], maxb) || !num(ops[0][2], nprod) || !num(ops[0][3], adds) ||
       !num(ops[0][5], nshut))
     return "bad-op";
+  if (!shspec.empty() && shspec.size() != nshut) return "bad-op";
+  for (char c : shspec)
+    if (c != 'i' && c != 'u' && !(c >= '0' && c <= '9')) return "bad-op";
   std::string fl = ops[0][4] == "-" ? "" : ops[0][4];
   std::string xs = ops[0][6] == "-" ? "" : ops[0][6];
   for (char c : fl)
@@ -301,13 +310,14 @@ static std::string handle(const std::vector<std::string> &t)
   }
   for (size_t s = 0; s < nshut; s++)
   {
-    detsched::spawn([&] {
+    char c = s < shspec.size() ? shspec[s] : 'i';
+    detsched::spawn([&, c] {
       detsched::point("begin", nullptr);
       detsched::note("shutdown-begin");
-      bool r = shut_to == 0     ? proc->Shutdown()
-               : shut_to == 't' ? proc->Shutdown(std::chrono::duration_cast<std::chrono::microseconds>(delay * 3))
-               : shut_to == 'z' ? proc->Shutdown(std::chrono::microseconds::zero())
-                                : proc->Shutdown(std::chrono::microseconds(1));
+      // a finite timeout bounds how long the caller is prepared to wait; it must not make Shutdown lose what was queued
+      bool r = c == 'i'   ? proc->Shutdown()
+               : c == 'u' ? proc->Shutdown(std::chrono::microseconds(1))
+                          : proc->Shutdown(std::chrono::duration_cast<std::chrono::microseconds>(delay * (c - '0')) / 4);
       detsched::note(std::string("shutdown-ret ") + (r ? "1" : "0"));
     });
   }
